@@ -77,10 +77,12 @@ VALUES: dict[str, list] = {
     'string': [('ascii', 'abc'), ('nonascii', 'é'), ('empty', ''), ('quote', 'say "hi"'), ('bslash', 'a\\b'),
                ('nl', 'l1\nl2'), ('crlf', 'a\r\nb'), ('tab', '\tx'), ('astral', '\U0001F600x'), ('squote', "it's"),
                ('brace', '{[x]}'), ('comment', '//c'), ('trailbs', 'end\\'),
-               ('len255', 'x' * 255), ('len256', 'y' * 256), ('len600', 'ab' * 300)],
+               ('len255', 'x' * 255), ('len256', 'y' * 256), ('len600', 'ab' * 300), ('arrow', 'x --> y')],
     'binary': [('one', '00'), ('big300', BLOB300), ('empty', ''), ('ffq', 'ff0022')],
     'time': [('1p5', 15000 / 10000.0), ('max', (2 ** 31 - 1) / 10000.0), ('0', 0.0), ('neg', -22500 / 10000.0),
-             ('tick', 1 / 10000.0), ('min', -2 ** 31 / 10000.0)],
+             ('tick', 1 / 10000.0), ('min', -2 ** 31 / 10000.0),
+             # tick counts for which n / 10000.0 and n * 0.0001 differ in the last bit
+             ('t3', 3 / 10000.0), ('t13', 13 / 10000.0), ('t12345', 12345 / 10000.0), ('tneg17', -17 / 10000.0)],
     'color': [('c123', [1, 2, 3, 255]), ('zero', [0, 0, 0, 0]), ('full', [255, 255, 255, 255]), ('mix', [255, 0, 128, 0])],
     'vector2': [('simple', [1.5, -2.25]), ('big', [16777216.0, -F32MAX]), ('zero', [0.0, 0.0])],
     'vector3': [('simple', [1.0, 2.0, 3.0]), ('mixed', [-0.5, 1024.25, 1000000.0]), ('zero', [0.0, 0.0, 0.0])],
@@ -1151,6 +1153,7 @@ GRAPHCFG_TOP = [c for c in GRAPHCFG if c.get('ver') in (1, 5) or (c['enc'] == 'k
 
 NAMES = ['a', 'A', 'id', 'ID', 'we"ird', 'back\\slash', 'bs\\n', 'sp ace', '\u00e9', '', "it's", 'l1\nl2', 'name', 'Name', 'L' * 256, 'M' * 300,
          'Stra\u00dfe', '\u039f\u0394\u039f\u03a3', '\ufb01le',     # lower() and casefold() disagree on these
+         'a-->b', '-->',        # the end-of-comment marker of the file header, inside ordinary strings near the start of the file
          'DMEStubElement', 'DMENullElement']      # the marker type names of stubs / NULL, here as free-form strings of ordinary elements
 # (not included: an element type spelt like a value-type keyword - "element", "int_array", ... - which the KeyValues2 grammar itself
 # cannot tell from an attribute type, so the format cannot carry it)
